@@ -30,6 +30,9 @@ def decode_instruction(instr):
     elif not op and op1 == 0b0000 and substring(instr, 7, 4) == 0b1111:
         # Debug hint
         raise NotImplementedError()
+    elif not op and op1 == 0b0000:
+        # unallocated hints execute as NOPs
+        return NopA1
     elif not op and (op1 == 0b0100 or (bit_at(instr, 19) and substring(instr, 17, 16) == 0b00)):
         # Move to Special register, Application level
         return MsrImmediateApplicationA1
